@@ -68,3 +68,86 @@ def tier1_problems(tier, rng):
         yield {"n": n, "grid": [[((x + y) % size) + 1 for x in range(size)] for y in range(size)]}
         for _ in range((40 if th else 8) if n <= 3 else 3):
             yield {"n": n, "grid": [[rng.choice(vals) for _ in range(size)] for _ in range(size)]}
+
+
+def _solved(rng, n):
+    """a valid n^2 x n^2 grid: the cyclic pattern with rows / columns permuted inside bands / stacks, bands and stacks
+    permuted, digits renamed, maybe transposed"""
+    N = n * n
+    base = [[(n * (y % n) + y // n + x) % N + 1 for x in range(N)] for y in range(N)]
+
+    def order():
+        groups = list(range(n))
+        rng.shuffle(groups)
+        out = []
+        for g in groups:
+            inner = list(range(n))
+            rng.shuffle(inner)
+            out += [g * n + i for i in inner]
+        return out
+    ro, co = order(), order()
+    ren = list(range(1, N + 1))
+    rng.shuffle(ren)
+    g = [[ren[base[r][c] - 1] for c in co] for r in ro]
+    if rng.random() < 0.5:
+        g = [list(r) for r in zip(*g)]
+    return g
+
+
+def _row_cycles(g, n):
+    """(r1, r2, columns): rows in different bands; exchanging the two rows' entries in these columns keeps both rows and
+    every column valid (the columns are one cycle of the permutation taking row r1 to row r2) and puts repeated digits
+    into boxes; shortest cycles first"""
+    N = n * n
+    out = []
+    for r1 in range(N):
+        for r2 in range(r1 + 1, N):
+            if r1 // n == r2 // n:
+                continue
+            where = {g[r1][c]: c for c in range(N)}
+            seen = set()
+            for c0 in range(N):
+                if c0 in seen:
+                    continue
+                cyc, c = [], c0
+                while c not in seen:
+                    seen.add(c)
+                    cyc.append(c)
+                    c = where[g[r2][c]]
+                if 2 <= len(cyc) < N:
+                    out.append((r1, r2, cyc))
+    out.sort(key=lambda t: len(t[2]))
+    return out
+
+
+def big(tier, rng):
+    """9x9 (and one 16x16) boards, far beyond the candidate enumeration: a solved grid with a few cells blanked (every
+    grid the posted program admits must obey the rules, the solved grid must be admitted); the same grid with two rows of
+    different bands exchanged along a short cycle of columns - rows and columns stay valid, boxes get a repeated digit -
+    fully given (no grid obeys the
+    rules) and with those cells blanked (only the unswapped completion obeys the rules)"""
+    th = tier == "thorough"
+    for n in ([3] * (6 if th else 2)) + [4]:
+        g = _solved(rng, n)
+        N = n * n
+        flat = [v for row in g for v in row]
+        for k in ([2, 5, 9, 14] if th else [3, 9]):
+            cells = rng.sample([(y, x) for y in range(N) for x in range(N)], k)
+            gb = [list(r) for r in g]
+            for (y, x) in cells:
+                gb[y][x] = 0
+            yield {"n": n, "grid": gb, "planted": [flat]}
+        cycs = _row_cycles(g, n)
+        short = [t for t in cycs if len(t[2]) <= len(cycs[0][2]) + 1] if cycs else []
+        rng.shuffle(short)
+        for (r1, r2, cols) in short[:(4 if th else 2)]:
+            bad = [list(r) for r in g]
+            hole = [list(r) for r in g]
+            for c in cols:
+                bad[r1][c], bad[r2][c] = g[r2][c], g[r1][c]
+                hole[r1][c] = hole[r2][c] = 0
+            if all(len({bad[by * n + dy][bx * n + dx] for dy in range(n) for dx in range(n)}) == N
+                   for by in range(n) for bx in range(n)):
+                continue      # the exchange happened to keep every box valid: not a corruption
+            yield {"n": n, "grid": bad}
+            yield {"n": n, "grid": hole, "planted": [flat], "n_solutions": 1}
